@@ -45,11 +45,20 @@ enum Ext {
     Iface(usize, usize),
     Func(FuncSig),
     Inline(Vec<Item>),
+    /// an API interface as the built component really imports it: the reference toolchain only keeps
+    /// what is needed (interface index, export names)
+    View(usize, BTreeSet<String>),
+}
+
+fn iface_names(apis: &[ApiPkg], p: usize, i: usize) -> BTreeSet<String> {
+    let f = &apis[p].ifaces[i];
+    f.type_names().into_iter().map(|(n, _)| n).chain(f.func_names()).collect()
 }
 
 /// a <: b
-fn sub(a: &Ext, b: &Ext) -> bool {
+fn sub(apis: &[ApiPkg], a: &Ext, b: &Ext) -> bool {
     match (a, b) {
+        (Ext::Iface(pa, ia), Ext::View(ib, names)) => ia == ib && names.is_subset(&iface_names(apis, *pa, *ia)),
         (Ext::Iface(pa, ia), Ext::Iface(pb, ib)) => ia == ib && pa >= pb,
         (Ext::Func(a), Ext::Func(b)) => a == b,
         (Ext::Inline(a), Ext::Inline(b)) => b.iter().all(|i| a.contains(i)),
@@ -118,6 +127,18 @@ fn sides(apis: &[ApiPkg], items: &[WorldItem]) -> Sides {
     s
 }
 
+/// replace the model's idea of imported API interfaces by what the built component imports
+fn to_views(imports: &mut BTreeMap<String, Ext>, w: &wire::Wire) {
+    for (n, e) in imports.iter_mut() {
+        if let Ext::Iface(_, i) = e {
+            if let Some(info) = w.imports.iter().find(|x| &x.name == n) {
+                let names: BTreeSet<String> = info.instance_exports.iter().flatten().map(|x| x.0.clone()).filter(|x| !x.starts_with('[')).collect();
+                *e = Ext::View(*i, names);
+            }
+        }
+    }
+}
+
 /// import/export names of world `w` in a WIT package, read with the reference validator
 fn world_names(pkg: &[u8]) -> Result<(BTreeSet<String>, BTreeSet<String>), String> {
     let mut v = wasmparser::Validator::new_with_features(wasmparser::WasmFeatures::all());
@@ -151,7 +172,7 @@ fn lookup<'a>(m: &'a BTreeMap<String, Ext>, n: &str, semver: bool) -> Option<&'a
     c.last().map(|(_, e)| *e)
 }
 
-fn expected(w: &Sides, c: &Sides, semver: bool) -> BTreeSet<Viol> {
+fn expected(apis: &[ApiPkg], w: &Sides, c: &Sides, semver: bool) -> BTreeSet<Viol> {
     let mut v = BTreeSet::new();
     for (n, ce) in &c.imports {
         match lookup(&w.imports, n, semver) {
@@ -159,7 +180,7 @@ fn expected(w: &Sides, c: &Sides, semver: bool) -> BTreeSet<Viol> {
                 v.insert(Viol::NotInTarget(n.clone()));
             }
             Some(we) => {
-                if !sub(we, ce) {
+                if !sub(apis, we, ce) {
                     v.insert(Viol::Mismatch("import", n.clone()));
                 }
             }
@@ -171,7 +192,7 @@ fn expected(w: &Sides, c: &Sides, semver: bool) -> BTreeSet<Viol> {
                 v.insert(Viol::Missing(n.clone()));
             }
             Some(ce) => {
-                if !sub(ce, we) {
+                if !sub(apis, ce, we) {
                     v.insert(Viol::Mismatch("export", n.clone()));
                 }
             }
@@ -406,6 +427,7 @@ fn check(c: &Case) -> Outcome {
                 return Outcome::gen_invalid(format!("model/toolchain disagree on the component's externs: model {:?}/{:?}, built {wi:?}/{we:?}", cs.imports.keys(), cs.exports.keys()));
             }
             cs.imports.retain(|n, _| wi.contains(n));
+            to_views(&mut cs.imports, &w);
         }
         Err(e) => return Outcome::gen_invalid(e),
     }
@@ -419,6 +441,7 @@ fn check(c: &Case) -> Outcome {
                     return Outcome::gen_invalid(format!("model/toolchain disagree on the second component's imports: model {:?}, built {wi:?}", ds.imports.keys()));
                 }
                 ds.imports.retain(|n, _| wi.contains(n));
+                to_views(&mut ds.imports, &w);
             }
             Err(e) => return Outcome::gen_invalid(e),
         }
@@ -427,6 +450,9 @@ fn check(c: &Case) -> Outcome {
             match (cs.imports.get_mut(&n), &e) {
                 (None, _) => {
                     cs.imports.insert(n, e);
+                }
+                (Some(Ext::View(_, a)), Ext::View(_, b)) => {
+                    a.extend(b.iter().cloned());
                 }
                 (Some(Ext::Inline(a)), Ext::Inline(b)) => {
                     for it in b {
@@ -451,8 +477,32 @@ fn check(c: &Case) -> Outcome {
         }
         Err(e) => return Outcome::gen_invalid(e),
     }
-    let e_exact = expected(&ws, &cs, false);
-    let e_semver = expected(&ws, &cs, true);
+    if std::env::var_os("C11_DEBUG").is_some() {
+        eprintln!("C11_DEBUG world {ws:?}\nC11_DEBUG comp {cs:?}");
+    }
+    let e_exact = expected(apis, &ws, &cs, false);
+    // the encoded output has one import per semver track, named for the highest version (C03)
+    let merged = {
+        let mut m: BTreeMap<String, (String, Ext)> = BTreeMap::new();
+        for (n, e) in &cs.imports {
+            let ver = |s: &str| semver::Version::parse(s.rsplit('@').next().unwrap()).ok();
+            match m.get_mut(&track_key(n)) {
+                None => {
+                    m.insert(track_key(n), (n.clone(), e.clone()));
+                }
+                Some((name, ext)) => {
+                    if let (Ext::View(_, a), Ext::View(_, b)) = (&mut *ext, e) {
+                        a.extend(b.iter().cloned());
+                    }
+                    if ver(n) > ver(name) {
+                        *name = n.clone();
+                    }
+                }
+            }
+        }
+        Sides { imports: m.into_values().collect(), exports: cs.exports.clone() }
+    };
+    let e_semver = expected(apis, &ws, &merged, true);
     let semver_near = e_exact != e_semver;
     let resourceful = apis.iter().any(|a| a.ifaces.iter().any(|i| has_resources(&i.items)))
         || w_items.iter().chain(c_items.iter()).any(|i| matches!(i, WorldItem::ImportInline(_, its) | WorldItem::ExportInline(_, its) if has_resources(its)));
@@ -593,8 +643,21 @@ fn check(c: &Case) -> Outcome {
         Ok(Err(e)) => return o.with_verdict(Verdict::Foreign(format!("stand-alone check could not load its inputs (C08's obligation): {e}"))),
         Err(p) => return o.with_verdict(Verdict::Fail { sig: format!("C11/panic:validate_target:{}", panic_sig(&p)), msg: format!("validate_target panicked: {p}") }),
     };
-    if standalone != e_semver {
-        let sig = if standalone == e_exact { "C11/standalone-not-semver-aware".to_string() } else { format!("C11/standalone-report-differs{}", if semver_near { ":semver-near" } else { "" }) };
+    // the report keys mismatches by name, so an import and an export mismatch under one name show as one entry
+    let collapse = |v: &BTreeSet<Viol>| -> BTreeSet<Viol> {
+        v.iter().map(|x| match x {
+            Viol::Mismatch(_, n) if v.contains(&Viol::Mismatch("import", n.clone())) && v.contains(&Viol::Mismatch("export", n.clone())) => Viol::Mismatch("either", n.clone()),
+            other => other.clone(),
+        }).collect()
+    };
+    let standalone_c: BTreeSet<Viol> = standalone.iter().map(|x| match x {
+        Viol::Mismatch(_, n) if collapse(&e_semver).contains(&Viol::Mismatch("either", n.clone())) => Viol::Mismatch("either", n.clone()),
+        other => other.clone(),
+    }).collect();
+    if standalone_c != collapse(&e_semver) {
+        let tracks: Vec<String> = cs.imports.keys().map(|k| track_key(k)).collect();
+        let two = tracks.iter().any(|t| tracks.iter().filter(|x| *x == t).count() >= 2);
+        let sig = if standalone == e_exact { "C11/standalone-not-semver-aware".to_string() } else { format!("C11/standalone-report-differs{}{}", if semver_near { ":semver-near" } else { "" }, if two { ":two-versions-on-track" } else { "" }) };
         return o.with_verdict(Verdict::Fail { sig, msg: format!("validate_target reports {standalone:?}; the model (semver-aware lookup as documented) gives {e_semver:?}") });
     }
     comparisons += 1;
@@ -678,7 +741,7 @@ pub fn run(tier: Tier, seed: u64, replay: Option<&std::path::Path>) -> i32 {
         run.replay_case::<Case, _>(p, check);
         return run.finish();
     }
-    let n = tier.pick(6_000, 120_000);
+    let n = tier.pick(24_000, 400_000);
     run.explore(
         1,
         16,
